@@ -342,7 +342,8 @@ def type_head(t):
             break
     if t.startswith(('{closure@', '[', '(', 'dyn ', 'impl ', '<')):
         return t
-    base = strip_generics(t)
+    base = strip_generics(t).strip()
+    while base.endswith('::'): base = base[:-2]
     base = base.split('::')[-1] if not base.startswith('{') else base
     return base.strip()
 
